@@ -4,6 +4,9 @@ use crate::executor::{Plan, Row, Value, execute_plan, execute_write};
 use nervusdb_api::GraphSnapshot;
 use std::collections::{BTreeMap, BTreeSet, HashSet, VecDeque};
 use std::sync::{Arc, Mutex};
+#[cfg(nervusdb_verif)]
+use nervusdb_api::verif::Instant;
+#[cfg(not(nervusdb_verif))]
 use std::time::Instant;
 
 mod aggregate_parse;
